@@ -11,8 +11,8 @@ from .. import weaver_common as W
 from ..core import err_kind
 
 ID = "C20"
-MODULES = ["TWV.Tie.WeaverEffects", "TWV.Properties.C20", "TWV.Tie.WeaverStep", "TWV.Tie.ProcessFns", "TWV.Tie.MatchFlow", "TWV.Tie.RfaParams"]
-TRANSLATORS = ["t6_effects", "t9_weaver", "t10_process", "t11_match", "t12_rfaparams"]
+MODULES = ["TWV.Tie.WeaverEffects", "TWV.Properties.C20", "TWV.Tie.WeaverStep", "TWV.Tie.ProcessFns", "TWV.Tie.MatchFlow", "TWV.Tie.RfaParams", "TWV.Tie.WeaverIO"]
+TRANSLATORS = ["t6_effects", "t9_weaver", "t10_process", "t11_match", "t12_rfaparams", "t14_weaverio"]
 RULE = ("malformed stream of the session correspondence: each invalid-argument class (x/y length mismatch, non (N,2) array, "
         "oversampling factor < 2, unknown integration rule on either side, unknown search strategy, unknown interpolation "
         "method, fixed points that are not samples / outnumber the samples, empty or inverted truncation range (absolute and "
